@@ -38,6 +38,7 @@ MUTANTS = [
     ("double-key-fast-path-back", R + "append_map.go", "	if t.K.T == tDOUBLE {", "	if t.K.T == tDOUBLE && t.V.T == tSTRUCT {", ["C02", "C01"]),
     ("binary-map-value-fast-path-back", R + "append_map.go", "	if t.V.Tag == defs.T_binary {", "	if t.V.Tag == defs.T_binary && t.K.T == tSTRING {", ["C02", "C01"]),
     ("recursive-container-check-removed", D + "types.go", "	if def == \"\" && isRecursiveContainer(vt, nil) {", "	if def == \"\" && vt.Kind() == reflect.Slice && isRecursiveContainer(vt, nil) {", ["C13"]),
+    ("unknown-fields-size-recomputed-per-add", R + "unknownfields.go", "	p.sz += sz\n	p.offs = append(p.offs, unknownFieldIdx{off: off, sz: sz})", "	p.offs = append(p.offs, unknownFieldIdx{off: off, sz: sz})\n	p.sz = 0\n	for _, x := range p.offs {\n		p.sz += x.sz\n	}", ["C05"]),
     ("string-field-length-16-bit", R + "append.go", "				s := *((*string)(p))\n				b = appendUint32(b, uint32(len(s)))", "				s := *((*string)(p))\n				b = appendUint32(b, uint32(uint16(len(s))))", ["C02", "C01"]),
     ("list-count-16-bit", R + "append_list.go", "	n := uint32(h.Len)", "	n := uint32(uint16(h.Len))", ["C02", "C01"]),
     ("map-count-16-bit", R + "append_map.go", "		n = uint32(maplen(*(*unsafe.Pointer)(p)))", "		n = uint32(uint16(maplen(*(*unsafe.Pointer)(p))))", ["C02", "C04"]),
